@@ -249,7 +249,10 @@ def run(ctx):
             metas.append((label, "cut", k, data, eod))
         # removal of single DataArray / Piece / DataSet elements
         text = data
-        for m in re.finditer(rb"<DataArray[^>]*?(/>|>.*?</DataArray>)|<Piece [^>]*/>|<Piece [^>]*[^/]>.*?</Piece>|<DataSet [^>]*/>", text, flags=re.S):
+        # (two passes: a whole <Piece> element contains its data arrays, one pattern for both would never reach them)
+        found = list(re.finditer(rb"<DataArray[^>]*?(/>|>.*?</DataArray>)", text, flags=re.S)) + \
+            list(re.finditer(rb"<Piece [^>]*/>|<Piece [^>]*[^/]>.*?</Piece>|<DataSet [^>]*/>", text, flags=re.S))
+        for m in found:
             if b"Name=\"connectivity\"" in m.group(0) or b"Name=\"offsets\"" in m.group(0) or b"Name=\"types\"" in m.group(0):
                 pass
             removed = text[:m.start()] + text[m.end():]
